@@ -281,7 +281,7 @@ class History:
                 self.violation("eq-raises:%s:%s" % (label, type(e).__name__),
                                "%s: comparison (%s) raised %s: %s" % (what, label, type(e).__name__, e))
             ctx.count("eq:comparisons")
-            if (r1 is not True and r1 is not False) or (r2 is not True and r2 is not False):
+            if not isinstance(r1, (bool, numpy.bool_)) or not isinstance(r2, (bool, numpy.bool_)):
                 self.violation("eq-not-bool:" + label, "%s: (%s) == gave %r, != gave %r" % (what, label, r1, r2))
             if r1 != expect:
                 self.violation("eq-wrong:%s:%s" % (label, "false-negative" if expect else "false-positive"),
@@ -508,8 +508,15 @@ class History:
                 kw["counts"] = dict(zip([int(x) for x in u.tolist()], [int(x) for x in c.tolist()]))
             else:
                 kw["counts"] = {}
-        self.log("from_array", shape=shape, common=ccls, mapping=mcls, counts="counts" in kw, rowscan_shape=rowscan)
-        x = iindex.from_array(m.copy(), **kw)
+        kw_call = dict(kw)
+        np_common = "common" in kw and rng.random() < 0.3
+        if np_common:
+            # "a value of the same type as the given values": an element of the array itself (a.max(), a[0])
+            kw_call["common"] = numpy.int64(kw["common"])
+            self.ctx.count("from_array:common_given_as_numpy_scalar")
+        self.log("from_array", shape=shape, common=ccls, mapping=mcls, counts="counts" in kw, rowscan_shape=rowscan,
+                 numpy_scalar_common=bool(np_common))
+        x = iindex.from_array(m.copy(), **kw_call)
         model = m if mp is None else numpy.array([mp[int(v)] for v in m.ravel().tolist()], dtype=I64).reshape(m.shape)
         live = Live(x, model, "from_array")
         self.entry_set_changed = True
@@ -548,8 +555,9 @@ class History:
         cand = present + [v for v in self.vals if v not in present] + [max(self.vals) + 2]
         other = [c for c in cand if c != r.x.common]
         v = int(gen.pick(self.rng, other if other and self.rng.random() < 0.85 else cand))
-        self.log("shift_common_v", v=v, present=v in present)
-        r.x.shift_common(v)
+        as_np = bool(self.rng.random() < 0.2)
+        self.log("shift_common_v", v=v, present=v in present, numpy_scalar=as_np)
+        r.x.shift_common(numpy.int64(v) if as_np else v)
         self.entry_set_changed = True
         self.after_step([r])
         if r.x.common != v:
@@ -1061,7 +1069,12 @@ class History:
             IndxIO.save(f, r.x, r.x.common, numpy.dtype(U32))
             f.seek(0)
             entries, common, _ = IndxIO.load(f)
-            entries = {k: numpy.array(v) for k, v in entries.items()}  # detach from the mmap
+            if self.rng.random() < 0.5:
+                entries = {k: numpy.array(v) for k, v in entries.items()}  # detach from the mmap
+            else:
+                # keep what the loader returned: read-only arrays backed by the file mapping go on living in
+                # the pool and take part in every later operation
+                self.ctx.count("indx:loaded_arrays_kept(read-only, file-backed)")
         if len(r.x) == 0 and len(r.m.shape) > 1:
             pass  # arity cannot be stored with no entries; keys are empty anyway
         res = iindex(entries, common, r.x.shape)
